@@ -224,10 +224,31 @@ def _check_case(ctx, case):
         if case.get("grow"):
             ctx.count("grown_graphs")
             g = case["grow"]
-            for mp_ in (im, sm):
-                mp_.add_node(g["node"][0], tuple(g["node"][1]))
+            im.add_node(g["node"][0], tuple(g["node"][1]))
+            for a, b in g["edges"]:
+                im.add_edge(a, b)
+            # the SQLite map grows in one of the documented ways: plain calls, deferred commit, deferred commit and index
+            # (the bulk-loading idiom: no_commit / no_index, then reindex_*), or one bulk call
+            mode = ["plain", "no_commit", "no_commit_no_index", "bulk"][len(g["edges"]) % 4]
+            ctx.count(f"grown_graphs:{mode}")
+            if mode == "plain":
+                sm.add_node(g["node"][0], tuple(g["node"][1]))
                 for a, b in g["edges"]:
-                    mp_.add_edge(a, b)
+                    sm.add_edge(a, b)
+            elif mode == "no_commit":
+                sm.add_node(g["node"][0], tuple(g["node"][1]), no_commit=True)
+                for a, b in g["edges"]:
+                    sm.add_edge(a, b, no_commit=True)
+                sm.db.commit()
+            elif mode == "no_commit_no_index":
+                sm.add_node(g["node"][0], tuple(g["node"][1]), no_commit=True, no_index=True)
+                for a, b in g["edges"]:
+                    sm.add_edge(a, b, no_commit=True, no_index=True)
+                sm.reindex_nodes()
+                sm.reindex_edges()
+            else:
+                sm.add_nodes([(g["node"][0], tuple(g["node"][1]))])
+                sm.add_edges([(a, b) for a, b in g["edges"]])
             m2 = {"nodes": m["nodes"] + [g["node"]], "edges": m["edges"] + [e for e in g["edges"] if e not in m["edges"]], "latlon": False}
             model = MapModel(m2)
             labs = sorted(model.coords)
